@@ -61,13 +61,15 @@ def units():
     for level in ('info', 'good', 'warn', 'fail', 'head'):
         U.append(Unit(Contract(
             'OutputBuffer._print', setup=setup_print, cases=[{'$level': level}], raises={},
-            let={'B': 'self.buffer', 'S': 'self.section', 'INSEC': 'self.in_section'},
+            let={'B': 'self.buffer', 'S': 'self.section', 'INSEC': 'self.in_section', 'UC': 'self.use_colors', 'CS': 'self._OutputBuffer__is_color_supported'},
             ensures=[
                 # a line below the minimum level is dropped, and nothing else happens
                 "implies(not always_print and g_rank < g_lvl, self.buffer == B and self.section == S)",
                 # otherwise exactly one line is appended to the active buffer; the text is s, or s wrapped in one colour escape
                 "implies(always_print or g_rank >= g_lvl, (len(self.section) == len(S) + 1 and self.buffer == B and self.section[:len(S)] == S) if INSEC else (len(self.buffer) == len(B) + 1 and self.section == S and self.buffer[:len(B)] == B))",
                 "implies(always_print or g_rank >= g_lvl, s in (self.section[len(S)] if INSEC else self.buffer[len(B)]))",
+                # with colours off (or unsupported, or an 'info' line, or empty text) the line is the text itself: colour is the only decoration
+                "implies((always_print or g_rank >= g_lvl) and (not UC or not CS or level == 'info' or len(s) == 0), (self.section[len(S)] if INSEC else self.buffer[len(B)]) == s)",
             ]), harness=None))
     # the level ranks themselves: 'good' ranks as 'info', an unknown name (a heading) ranks above every minimum level
     for name, rank in sorted(RANK.items()):
